@@ -441,7 +441,11 @@ pub fn main(args: &Args) {
         let snippets: Vec<String> = rule_snippets().into_iter().map(|(_, s)| s).filter(|s| s.len() <= max_tokens_chars && !s.contains("{{") && !s.contains("{%")).collect();
         let corp = corpus();
         for d in &dialects {
-            let fixed = ["SELECT 1\n", "SELECT a, b FROM t WHERE a = 1\n", "select a from t1 join t2 on t1.x = t2.x\n", "SELECT (a + b) * c AS d FROM (SELECT 1) AS s\n", "SELECT a FROM\n", "SELECT 1 +\n", ")\n", "INSERT INTO t (a) VALUES (1), (2)\n", "SELECT CASE WHEN a THEN 1 ELSE 2 END FROM t -- c\n", "CREATE TABLE t (a int)\n", "SELECT a FROM t WHERE (b = 1 AND (c IN (1, 2))\n", "SELECT [1, 2] FROM t\n", "UPDATE t SET a = 1 WHERE b = 2;\nDELETE FROM t;\n"];
+            let fixed = ["SELECT 1\n", "SELECT a, b FROM t WHERE a = 1\n", "select a from t1 join t2 on t1.x = t2.x\n", "SELECT (a + b) * c AS d FROM (SELECT 1) AS s\n", "SELECT a FROM\n", "SELECT 1 +\n", ")\n", "INSERT INTO t (a) VALUES (1), (2)\n", "SELECT CASE WHEN a THEN 1 ELSE 2 END FROM t -- c\n", "CREATE TABLE t (a int)\n", "SELECT a FROM t WHERE (b = 1 AND (c IN (1, 2))\n", "SELECT [1, 2] FROM t\n", "UPDATE t SET a = 1 WHERE b = 2;\nDELETE FROM t;\n",
+                // crossed / surplus / unclosed brackets of every kind (resolve_bracket, next_ex_bracket_match)
+                "CREATE TABLE t (a INT (1, (2] [3), 4))\n", "SELECT (a[1)] FROM t\n", "SELECT a] FROM t\n", "SELECT a FROM t}\n", "SELECT a[1]] FROM t\n",
+                "SELECT f(a, (b + c) FROM t\n", "SELECT a FROM (SELECT b FROM (SELECT c FROM t)) x\n", "SELECT ((a)), [b, [c]] FROM t\n",
+                "ROLLBACK TO SAVEPOINT sp1;\n", "CREATE TRIGGER tr BEFORE INSERT ON t FOR EACH ROW EXECUTE PROCEDURE f();\n"];
             for f in fixed {
                 items.push(Item { dialect: d.clone(), cls: "fixed", sql: f.to_string() });
             }
